@@ -903,6 +903,12 @@ def c04_history(model, meta):
             kind = ev[0]
             if kind in ("spawn", "exit", "reuse"):
                 getattr(tb, kind)(ev[1])
+            elif kind == "proc":
+                if ev[1] in tb.procs:
+                    try:
+                        handles.append((psutil.Process(ev[1]), ev[1], tb.procs[ev[1]]))
+                    except psutil.Error as e:
+                        problems.append(f"Process({ev[1]}) raised {e!r} for a listed PID")
             elif kind == "clear":
                 psutil.process_iter.cache_clear()
                 cached = {}
@@ -916,8 +922,11 @@ def c04_history(model, meta):
                         problems.append(f"is_running() == {r} for pid {pid} (process {'alive' if alive else 'gone/replaced'})")
                     if not alive and pid in cached and cached[pid][0] is obj:
                         del cached[pid]        # found recycled/gone: its entry must be replaced / dropped
-                        if pid in tb.procs:
-                            pending_reused.add(pid)
+                    if not alive and pid in tb.procs and getattr(obj, "_pid_reused", False):
+                        # is_running() publishes the bare PID: the next pass drops whatever entry is cached
+                        # under it (recorded finding C04-reused-skip covers the skipped pass)
+                        pending_reused.add(pid)
+                        cached.pop(pid, None)
             elif kind in ("iter", "iter_partial", "iter_attrs"):
                 attrs = ["pid", "name"] if kind == "iter_attrs" else None
                 gen = psutil.process_iter(attrs)
@@ -956,9 +965,10 @@ def c04_history(model, meta):
                     if prev is not None and prev[1] != tick and prev[0] is p and any(
                             h[0] is p and False for h in handles):
                         pass
-                    if not any(h[0] is p for h in handles):
+                    seen_before = any(h[0] is p for h in handles)
+                    if not seen_before:
                         handles.append((p, p.pid, tick))
-                    if prev is None or prev[0] is not p:
+                    if (prev is None or prev[0] is not p) and not seen_before:
                         # a new cache entry: it must describe the process that owns the PID now
                         if p._ident[1] is not None and abs(p._ident[1] - tick / _pslinux.CLOCK_TICKS) > 1e-6 and \
                                 abs(p._ident[1] - (tick / _pslinux.CLOCK_TICKS + 1700000000)) > 1e-6:
@@ -993,7 +1003,16 @@ def c04_history(model, meta):
 
 
 C04_EVENTS = [("spawn", 2), ("spawn", 3), ("exit", 2), ("exit", 3), ("reuse", 2), ("reuse", 3), ("iter",),
-              ("iter_partial", 1), ("isrun",), ("clear",), ("iter_attrs",)]
+              ("iter_partial", 1), ("isrun",), ("clear",), ("iter_attrs",), ("proc", 2), ("proc", 3)]
+
+C04_LONG = [
+    [("spawn", 3), ("proc", 3), ("reuse", 3), ("iter",), ("isrun",), ("iter",), ("isrun",)],
+    [("spawn", 2), ("spawn", 3), ("iter",), ("reuse", 2), ("isrun",), ("iter",), ("iter",), ("isrun",)],
+    [("spawn", 3), ("iter",), ("exit", 3), ("isrun",), ("spawn", 3), ("iter",), ("isrun",)],
+    [("spawn", 2), ("iter_partial", 1), ("spawn", 3), ("iter",), ("exit", 2), ("iter",), ("clear",), ("iter",)],
+    [("spawn", 3), ("proc", 3), ("iter",), ("reuse", 3), ("isrun",), ("proc", 3), ("iter",), ("iter",), ("isrun",)],
+    [("spawn", 2), ("proc", 2), ("exit", 2), ("spawn", 2), ("iter",), ("isrun",), ("iter",), ("isrun",)],
+]
 
 
 @search("c04:history")
@@ -1001,6 +1020,9 @@ def c04_history_search(meta, seed, budget):
     import itertools
     import random
     n = 0
+    for h in C04_LONG:
+        yield {"events": [list(e) for e in h]}
+        n += 1
     for ln in range(1, 4):
         for tup in itertools.product(C04_EVENTS, repeat=ln):
             if not any(e[0].startswith("iter") for e in tup):
